@@ -704,7 +704,7 @@ class _Merger(object):
         annotation = left.empty
         upgraded_annotation = EmptyAnnotation
         if left.annotation != left.empty and right.annotation != right.empty:
-            if left.annotation == right.annotation:
+            if _same_annotation(left, right):
                 annotation = left.annotation
                 upgraded_annotation = left.upgraded_annotation
         elif left.annotation != left.empty:
@@ -714,6 +714,23 @@ class _Merger(object):
             annotation = right.annotation
             upgraded_annotation = right.upgraded_annotation
         return left.replace(default=default, annotation=annotation, upgraded_annotation=upgraded_annotation)
+
+
+def _same_annotation(left, right):
+    """Do both parameters' annotations denote the same thing where they were
+    written?  Under :pep:`563` the raw annotations are strings, which say
+    nothing when the functions live in different modules or only one of them
+    postpones evaluation."""
+    l_ann = left.upgraded_annotation
+    r_ann = right.upgraded_annotation
+    if l_ann is EmptyAnnotation or r_ann is EmptyAnnotation:
+        # parameters that did not come from a function
+        return left.annotation == right.annotation
+    try:
+        return l_ann.source_value() == r_ann.source_value()
+    except Exception:
+        # cannot be evaluated, e.g. names only imported for type checkers
+        return left.annotation == right.annotation
 
 
 def merge(*signatures):
